@@ -48,6 +48,30 @@ def lossy_calls(fx, fid):
     return out
 
 
+WIDTH = {"u8": 8, "u16": 16, "u32": 32, "u64": 64, "usize": 64, "i8": 8, "i16": 16, "i32": 32, "i64": 64, "isize": 64, "u128": 128, "i128": 128,
+         "f32": 32, "f64": 64, "bool": 1, "char": 32}
+
+
+def lossy_casts(fx, fid):
+    """[(kind, line)] of `as` casts that can lose information (narrowing, or integer <-> float) in fid and its closures"""
+    out = []
+    ids = [fid] + [c for c in fx.fns if c != fid and fx.root_fn(c) == fid]
+    for i in ids:
+        for b in fx.fns[i].get("blocks") or []:
+            if b.get("cleanup"):
+                continue
+            for st in b["stmts"]:
+                if st.get("k") != "assign" or st["rv"].get("k") != "cast" or st["span"].get("macros"):
+                    continue
+                rv = st["rv"]
+                op = rv.get("op") or {}
+                frm = op["place"].get("ty") if op.get("k") in ("move", "copy") else op.get("ty")
+                to = rv.get("ty")
+                if to in WIDTH and frm in WIDTH and (WIDTH[to] < WIDTH[frm] or (to[0] == "f") != (frm[0] == "f") or (to[0] in "iu" and frm[0] in "iu" and to[0] != frm[0] and WIDTH[to] <= WIDTH[frm])):
+                    out.append(("cast %s->%s" % (frm, to), st["span"].get("line")))
+    return out
+
+
 # confirmed on the pinned tree by reading each site: signature key -> {operation: count}
 CONFIRMED = {}
 
@@ -66,7 +90,7 @@ def check(ctx, rep, P, walked):
     roots = sorted({fx.root_fn(f) for f in walked if f in fx.fns})
     n_sites = 0
     for fid in roots:
-        calls = lossy_calls(fx, fid)
+        calls = lossy_calls(fx, fid) + lossy_casts(fx, fid)
         if not calls:
             continue
         key = sig_key(fx, fid)
@@ -80,7 +104,7 @@ def check(ctx, rep, P, walked):
             lines = [l for k, l in calls if k == kind]
             f = fx.fns[fid]
             rep.obligation(n <= lim, "%s/RA.1/unreviewed-lossy-adaptor/%s/%s" % (P, fid.split("::")[-1] if not fid.startswith("<") else fid, kind),
-                           "%s has %d %s operation(s) (lines %s); %d confirmed: an element-dropping adaptor the rules of this property do not model" % (
+                           "%s has %d %s operation(s) (lines %s); %d confirmed: an element-dropping adaptor / information-losing cast the rules of this property do not model" % (
                                fid, n, kind, lines, lim), "%s:%s (%s)" % (f["span"]["file"], lines[0], fid),
                            sample="%s: %d x %s (confirmed)" % (fid.split("::")[-1], n, kind))
     rep.count("walked-bodies", len(roots))
